@@ -54,6 +54,21 @@ Theorem C15_different_stack_different_name :
 Proof. exact different_stack_different_name. Qed.
 Print Assumptions C15_different_stack_different_name.
 
+(* KNOWN FINDING (class symboliser-not-injective): the first premise above is
+   false for the real runtime.  Instantiations of one generic function are all
+   named F[...] and, when they share a code shape, have equal line and pc
+   offsets: call stacks that differ only in the instantiation (different pcs)
+   get ONE counter name.  Confirmed on the real code (pa.G[int] vs
+   pa.G[map[string]pb.Deep] in harness vh_stack).  Model witness: *)
+Theorem C15_different_stack_same_name_refuted :
+  let symb := fun pcs : list N => map (fun _ : N => generic_frame) pcs in
+  let name := [115; 116] in
+  [1] <> [2] /\ (forall p, Forall (fun f => fn_identified (fr_func f) = true) (symb p)) /\
+  is_truncated name (symb [1]) = false /\ is_truncated name (symb [2]) = false /\
+  encode_stack symb [1] name = encode_stack symb [2] name.
+Proof. exact different_stack_same_name_refuted. Qed.
+Print Assumptions C15_different_stack_same_name_refuted.
+
 (* The rendering itself is injective on frame lists (all frame lists, any
    prefix), when neither name is truncated. *)
 Theorem C15_injective_untruncated :
